@@ -351,12 +351,21 @@ class Function(object):
                     self.blocks[s].preds.append(b.id)
         # falling off the end of a function is a return too: make it an explicit event so that
         # exit rules see every way out
-        for b in self.blocks.values():
+        for b in list(self.blocks.values()):
             if b.id != self.exit and self.exit in b.succ and not b.noret:
                 if not b.ev or b.ev[-1]["e"] != "ret":
                     if not (b.term is not None and b.term.get("k") == "ReturnStmt"):
-                        b.ev.append({"e": "ret", "l": "%s:%d:1" % (self.file, self.endline or self.line),
-                                     "synthetic": True})
+                        sret = {"e": "ret", "l": "%s:%d:1" % (self.file, self.endline or self.line), "synthetic": True}
+                        if len([x for x in b.succ if x is not None]) == 1:
+                            b.ev.append(sret)
+                        else:
+                            # a branch one arm of which falls off the end: the return belongs to that edge only
+                            nid = max(self.blocks) + 1
+                            nb = Block({"id": nid, "ev": [sret], "succ": [self.exit]})
+                            self.blocks[nid] = nb
+                            b.succ = [nid if x == self.exit else x for x in b.succ]
+                            self.blocks[self.exit].preds = [x for x in self.blocks[self.exit].preds if x != b.id] + [nid]
+                            nb.preds = [b.id]
         self._events = None
 
     def __repr__(self):
